@@ -67,7 +67,7 @@ def tree_close(a, b, tol):
 
 
 # ---- programs -----------------------------------------------------------------------------------------------------------
-CONTAINER_FORMS = ["ppp", "p_p0", "p1p1", "dict_mix", "list_nest", "pass_and_index"]
+CONTAINER_FORMS = ["ppp", "p_p0", "p1p1", "dict_mix", "list_nest", "pass_and_index", "slices"]
 
 
 def make_function(c):
@@ -78,13 +78,15 @@ def make_function(c):
         n = c.int(2, 3)
         (a, b, K), _ = values.generic(vseed, [(n,), (n,), (n,)], -1.2, 1.2)
         nested = form in ("p1p1", "list_nest")
-        x0 = (a, (b, a * 0.5)) if nested else (a, b)
+        x0 = (a, (b, a * 0.5)) if nested else ((a, b, a * 0.5) if form == "slices" else (a, b))
 
         def f(x, ns):
             import autograd.builtins as ab
 
             if form == "ppp":
                 return ab.tuple((x, x, x))
+            if form == "slices":  # overlapping slices and a plain index of one sequence (contributions arrive in several orders)
+                return ab.tuple((x[:2], x[1:], x[::2], x[0] * K, x))
             if form == "p_p0":
                 return ab.tuple((x, x[0] * K))
             if form == "p1p1":
